@@ -4,7 +4,8 @@
    (configuration, text), the set of outcomes StreamImpl predicts over all chunkings. *)
 EXTENDS Stream, StreamConfigs, Json, IOUtils
 
-CONSTANTS MaxLen, Mode    \* Mode: "mc" | "emit"
+CONSTANTS MaxLen, Mode,   \* Mode: "mc" | "emit"
+          CfgFrom, CfgTo  \* configurations explored by this run
 
 
 VARIABLES ci, text, pos, h, done
@@ -13,7 +14,7 @@ vars == <<ci, text, pos, h, done>>
 Cfg == Configs[ci]
 Texts(c) == UNION {[1..n -> c.alpha] : n \in 0..MaxLen}
 
-Init == /\ ci \in 1..Len(Configs)
+Init == /\ ci \in (1..Len(Configs)) \cap (CfgFrom..CfgTo)
         /\ text \in Texts(Configs[ci])
         /\ pos = 0 /\ done = FALSE
         /\ h = InitH(Configs[ci])
